@@ -967,6 +967,8 @@ def dict_display(f, name: str) -> Optional[ast.Dict]:
     dst, dval = defs[0]
     if isinstance(dval, ast.Call) and call_name(dval) == "dict" and not dval.args:
         entries = [(k.arg, k.value) for k in dval.keywords if k.arg]
+    elif isinstance(dval, ast.Call) and call_name(dval).split(".")[-1] in ("Dataset", "OrderedDict", "defaultdict") and not dval.args and not [k for k in dval.keywords if k.arg not in ("attrs",)]:
+        entries = []  # an empty keyed container filled by `x["k"] = v`
     elif isinstance(dval, ast.Dict) and all(isinstance(k, ast.Constant) for k in dval.keys):
         entries = [(k.value, v) for k, v in zip(dval.keys, dval.values)]
     else:
